@@ -160,6 +160,9 @@ var Int = NewScalar(ScalarConfig{
 		switch valueAST := valueAST.(type) {
 		case *ast.IntValue:
 			if intValue, err := strconv.Atoi(valueAST.Value); err == nil {
+				if intValue < math.MinInt32 || intValue > math.MaxInt32 {
+					return nil
+				}
 				return intValue
 			}
 		}
